@@ -51,6 +51,11 @@ def struct_cfgs(tier):
            ("keys-differ", base,
             dict(n_children=2, shape=["int", "arr"],
                  indices=["int", "slice", "arr"], keys=["_in0", "y"])),
+           # same keys, inserted in another order: mappings are compared by
+           # key, not by position
+           ("keys-permuted", base,
+            dict(n_children=2, shape=["int", "arr"],
+                 indices=["int", "slice", "arr"], keys=["x", "_in0"])),
            ("kinds-differ", base,
             dict(n_children=2, shape=["arr", "int"],
                  indices=["arr", "slice", "int"], keys=["_in0", "x"]))]
@@ -221,7 +226,8 @@ class EqualityRec(Contract):
 
     def instances(self, tier):
         return [dict(label=k, case=k) for k in
-                ("identical", "class-mismatch", "miss-then-hit", "ne")]
+                ("identical", "class-mismatch", "miss-then-hit",
+                 "same-left-other-right", "ne")]
 
     def run(self, h, inst):
         from pytato.array import Placeholder, Roll
@@ -231,8 +237,15 @@ class EqualityRec(Contract):
         calls = []
         verdict = h.ctx.fresh_bool("method_result")
 
+        verdicts = {}
+
         def map_roll_stub(interp, fn, args, kwargs):
             calls.append(args[1:])
+            if case == "same-left-other-right":
+                k = (id(args[1]), id(args[2]))
+                if k not in verdicts:
+                    verdicts[k] = h.ctx.fresh_bool(f"verdict{len(verdicts)}")
+                return verdicts[k]
             return verdict
         h.interp.contracts[EqualityComparer.map_roll] = map_roll_stub
         cmp_ = EqualityComparer()
@@ -258,6 +271,19 @@ class EqualityRec(Contract):
             h.call(cmp_.rec, b, a)
             h.oblige("rec.memo-keyed-by-ordered-pair",
                      z3.BoolVal(len(calls) == 2 and calls[1][0] is b))
+        elif case == "same-left-other-right":
+            # one node compared with two different nodes: two entries
+            c = build(Roll, "e3", "concrete").obj
+            r1 = h.call(cmp_.rec, a, b)
+            r2 = h.call(cmp_.rec, a, c)
+            r3 = h.call(cmp_.rec, c, b)
+            h.oblige("rec.memo-distinguishes-right-operands",
+                     z3.BoolVal(len(calls) == 3))
+            for r, (x, y) in ((r1, (a, b)), (r2, (a, c)), (r3, (c, b))):
+                v = verdicts.get((id(x), id(y)))
+                h.oblige("rec.verdict-is-that-of-the-pair",
+                         z3.BoolVal(v is not None) if v is None
+                         else _zb(r) == v.t)
         else:
             r = h.call(Array_ne(), a, b)
             r0 = h.call(Array_eq(), a, b)
